@@ -18,19 +18,22 @@ CHECKS = {
              "tables, and then validates, event by event, a trace of every put/get/len entry point (functions, "
              "macros, fixed-width, reversed, 32-bit forms; three build tiers) of the real code on that domain plus "
              "seeded values against the same operators: decoded value, four lengths, range, and the exact write "
-             "footprint in a patterned window; signed 24/40/48/56-bit helpers likewise.",
+             "footprint in a patterned window; signed 24/40/48/56-bit helpers likewise."
+             " The boundary domain also contains every integer constant found in the sources of the tree under test (and its neighbours); the 128-bit external fixed-width API and the out-of-line 32-bit readers are exercised as well.",
         ref="DESIGN.md 4/C01", technique="TLA+ spec (ScalarBytes/ScalarModel) checked by TLC + TLC trace validation of the C API (ScalarTrace)"),
     "C04": dict(
         text="The documented wire formats are transcribed into TLA+ from comments/README (never from function bodies); "
              "TLC checks canonicity, shortest-length and monotonicity on the boundary domain and documented maxima, "
              "and trace validation compares every byte the real encoders produce (all families, fixed/reversed forms, "
-             "Elias gamma/delta bit strings, zig-zag) with the reference encoder: an oracle that is not the library.",
+             "Elias gamma/delta bit strings, zig-zag) with the reference encoder: an oracle that is not the library."
+             " Mined source constants join the domain (a threshold introduced by a change is exercised on both sides).",
         ref="DESIGN.md 4/C04", technique="TLA+ reference encoders checked by TLC + byte-exact TLC trace validation"),
     "C05": dict(
         text="TLC checks memcmp-order, equality and prefix-freeness of the tagged format on all adjacent pairs of the "
              "sorted boundary domain (order on the domain follows by transitivity); trace validation checks the sign "
              "of the C library's memcmp over keys the real encoder produced for boundary pairs, one-byte-different "
-             "pairs, random pairs and tuples of 1..3 values.",
+             "pairs, random pairs and tuples of 1..3 values."
+             " Keys are also produced through the 32-bit and fixed-width writers and by in-place adds (large steps and counter-style +-1..256 steps): a stored varint must be THE encoding of its value however it got there.",
         ref="DESIGN.md 4/C05", technique="TLA+ order lemmas checked by TLC + TLC trace validation of memcmp over real keys"),
     "C07": dict(
         text="FloatCodec.tla states the contract on IEEE-754 bit patterns in exact integer arithmetic (specials and FULL "
@@ -39,7 +42,8 @@ CHECKS = {
              "checks the contract for every toy value and width (the carry-dropping shape is the negative control) and "
              "prints the value classes; the real codec is run on every class alone and in mixed arrays in all "
              "precision x exponent-mode pairs, on arrays with exponent spread > 255 and on requested errors around "
-             "each mode bound; FloatTrace.tla judges every element.",
+             "each mode bound; FloatTrace.tla judges every element."
+             " FloatModel.tla also models the array level of COMMON_EXPONENT mode (offset width, fallback decided on the stored exponents); exponent-span classes around 255, exactK mantissa classes and arrays homogeneous in what their values need feed the automatic precision selection.",
         ref="DESIGN.md 4/C07", technique="TLA+ contract + toy-format algorithm model checked exhaustively by TLC + TLC trace validation on binary64 bit patterns"),
     "C08": dict(
         text="BitmapModel.tla checks exhaustively (universe 0..7, threshold 3) that the three-container design with "
@@ -48,7 +52,8 @@ CHECKS = {
              "histories of length 3 over an alphabet placed around 4095/4096/4097, long ranges and the universe edges; "
              "each is executed on the real object and BitmapTrace.tla carries the abstract set as state and compares "
              "return value, cardinality, emptiness, array export, iteration (order/duplicates), membership probes and "
-             "operand immutability after every step; seeded 40-step histories cross 4096 repeatedly.",
+             "operand immutability after every step; seeded 40-step histories cross 4096 repeatedly."
+             " A second family (algebra walks) pairs 14 left-operand constructions with every binary operation and 12 right operands of every container kind (array, bitmap, run), both argument orders; Optimize and the statistics' cardinality are observed too.",
         ref="DESIGN.md 4/C08", technique="TLA+ refinement model (TLC exhaustive) + TLC-enumerated histories replayed on the code + stateful TLC trace validation"),
     "C09": dict(
         text="Packed.tla states the layout as a flat LSB-first bit string; PackedModel.tla enumerates the admissible "
@@ -57,7 +62,8 @@ CHECKS = {
              "(all operation sequences to depth 4/5 keep a sorted multiset). Every element position of a full slot "
              "period is written/incremented/halved in an isolation layout (all other bits compared) and a tight layout "
              "(guard page: only the element's slots may be touched); the sorted-layer sequences are replayed on the "
-             "real arrays and judged on the decoded element sequence with the length carried as trace-spec state.",
+             "real arrays and judged on the decoded element sequence with the length carried as trace-spec state."
+             " Sorted walks are replayed under order-preserving embeddings (identity, across the top bit, flush against the maximum) in guard-page mappings; element indices around bit offsets 2^31, 2^32, 2^33 are exercised in a sparse 1 GiB array.",
         ref="DESIGN.md 4/C09", technique="TLA+ bit-string contract + TLC-enumerated configurations and operation sequences + TLC trace validation of memory images"),
     "C10": dict(
         text="Dimension.tla states the packed form, the width-pair byte, the header layout and the cell address; "
@@ -75,7 +81,8 @@ CHECKS = {
              "switch is the negative control). The real header is instantiated for uint64_t and the documented "
              "uint32_t/uint16_t/uint8_t word types and every (offset mod word, width) pair x value/prior classes is "
              "run in an isolation layout (every other bit compared) and a tight layout (guard page behind the "
-             "overlapping words); BitstreamTrace.tla judges each image; signed helpers for widths 2..64.",
+             "overlapping words); BitstreamTrace.tla judges each image; signed helpers for widths 2..64."
+             " Bit offsets around 2^31 and 2^32 are exercised in a sparse 512 MiB stream.",
         ref="DESIGN.md 4/C11", technique="TLA+ algorithm model checked exhaustively by TLC + TLC trace validation of memory images"),
     "C12": dict(
         text="AddModel.tla is the in-place-add state machine over slot memory; TLC explores all add histories to depth "
@@ -91,27 +98,31 @@ CHECKS = {
              "4095/4096/4097, 65535/65536 x value shape straddling byte/bit widths incl. marker coincidence, 9-byte "
              "values, 64-bit blocks); the driver runs the real encoders/decoders on every leaf with the decoder reading "
              "an exact-size guard-page copy of exactly the bytes the encoder reported, and TLC validates every event "
-             "(decoded sequence = input, bytes consumed, random access = full decode).",
+             "(decoded sequence = input, bytes consumed, random access = full decode)."
+             " The scenario space includes progressions whose minimum/range sits on every tagged length class and on every mined source constant, zero-width 128-blocks, the marker coincidence at every position; every scenario also runs through the encoders' meta == NULL path, with output structs primed by a decoy encode, in the default, unoptimised and AVX2/AVX-512 (simd) builds; single-block BP128 codecs, RLE run iteration and dictionary Find/Lookup are bound as block / random-access readers. Wire.tla compares the bytes of FOR/RLE/delta/group/dict encodings (unclaimed conformance fact).",
         ref="DESIGN.md 4/C02", technique="TLA+ register spec + TLC-enumerated scenarios + TLC trace validation with guard-page buffers"),
     "C03": dict(
         text="Each Encode event carries the value the real sizing function returned for that input and the bytes "
              "written; the trace spec requires written <= advertised (= for predictors documented as exact), and a "
              "second encode into a destination of exactly the advertised size ending at a PROT_NONE page must not "
              "fault. Scenarios are the worst cases of each bound, enumerated by TLC (9-byte values, 64-bit blocks, "
-             "outliers at the end, all-unique, sampler-misleading periodic data, every forced adaptive encoding).",
+             "outliers at the end, all-unique, sampler-misleading periodic data, every forced adaptive encoding)."
+             " Runs in the default and the simd build.",
         ref="DESIGN.md 4/C03", technique="TLA+ size contract in the trace spec + TLC-enumerated worst-case scenarios + guard-page destinations"),
     "C06": dict(
         text="Adaptive encode/decode is held to the same register contract as the plain codecs, with the selector left "
              "nondeterministic (any encoding may be chosen; the first byte must name it and equal the reported type); "
              "TLC enumerates scenario leaves aimed at every branch of the documented decision tree (orders, duplicate "
              "patterns, bitmap range, outlier ratios around 5%, exact vs sampled uniqueness around 10000) and every "
-             "forced encoding on its documented domain.",
+             "forced encoding on its documented domain."
+             " Selector.tla specifies the analysis and the decision tree as exact functions and proves (ASSUME) that 58 deterministic recipes land on, just below and just above every threshold of the tree, reaching all 8 leaves; the recipes run automatically selected and forced. Encodings larger than 2^20 bytes are part of the scenario space.",
         ref="DESIGN.md 4/C06", technique="TLA+ register spec with nondeterministic selector + TLC-enumerated decision-tree scenarios + trace validation"),
     "C13": dict(
         text="For every capacity-taking decoder the driver decodes valid encodings into an output array of exactly "
              "`capacity` elements ending at a PROT_NONE page, for capacities 0, 1, n/2, n-1 and block boundaries; the "
              "library's own heap blocks are end-fenced too (allocator shim) so internal scratch overruns fault. The "
-             "trace spec accepts only: no fault, and result 0 or a correct prefix of at most `capacity` elements.",
+             "trace spec accepts only: no fault, and result 0 or a correct prefix of at most `capacity` elements."
+             " Short arrays get every capacity 0..n-1.",
         ref="DESIGN.md 4/C13", technique="TLA+ capacity contract + TLC-enumerated scenarios + trace validation with guard pages and fenced heap"),
     "C14": dict(
         text="HostileGen.tla builds hostile inputs from the documented wire layouts (every truncation point of valid "
@@ -126,16 +137,18 @@ CHECKS = {
         text="Every metadata field an encoder reports and every header accessor result is compared by TLC with ground "
              "truth computed in TLA+ from the input values (count, min, max, range, offset width, run count, sum of "
              "Elias code lengths, block count, last-block size) or from the stream header (PFOR width byte, adaptive "
-             "type byte, bytes written).",
+             "type byte, bytes written)."
+             " Analysis entry points (FOR/RLE analyse, ComputeWidth, BP128 MaxBitWidth) and per-field group widths are compared as well; default and simd builds.",
         ref="DESIGN.md 4/C16", technique="TLA+ ground-truth functions (Limbs/StoreTrace) + trace validation of reported metadata"),
     "C15": dict(
         text="Purity.tla models the hidden context (stack residue, heap residue, previous call) and enumerates every "
              "schedule of perturbations up to depth 2/3 (a callee that reads residue is the negative control); the "
              "driver realises each schedule (96 KiB stack painting incl. the call's own element count replicated, heap "
-             "bin seeding with M_PERTURB, previous calls of the same/another API and count) before each of 28 "
+             "bin seeding with M_PERTURB, previous calls of the same/another API and count) before each of ~90 "
              "representative calls, in two processes and in the optimised and unoptimised tiers; PurityTrace.tla keeps "
              "a memo of the first result per call class and rejects any later execution whose bytes, length or decoded "
-             "values differ; thorough adds valgrind memcheck (Uninit events).",
+             "values differ; thorough adds valgrind memcheck (Uninit events)."
+             " Every reader (bulk, random access, block) of the produced bytes runs under the schedule's paints as well; previous-call kinds include a call on the SAME input buffer with other contents; heap residue reaches the library unmasked (real allocator, blocks of the sizes the call will request, allocation fills via M_PERTURB); call classes cover short, long and every byte-width class of inputs and the float codec.",
         ref="DESIGN.md 4/C15", technique="TLA+ context model + TLC-enumerated perturbation schedules + stateful (memo) TLC trace validation"),
     "C17": dict(
         text="Threads.tla checks over all interleavings of Begin/End steps of 3 threads that with per-call scratch every "
@@ -143,7 +156,8 @@ CHECKS = {
              "classes on shared read-only inputs and private outputs in barrier-released bursts; every thread's log "
              "(own sequence numbers, no cross-thread ordering assumed) is validated against the sequential results by "
              "ThreadsTrace.tla; the same driver under ThreadSanitizer turns any race report into a Race event, which "
-             "is not an action of the specification.",
+             "is not an action of the specification."
+             " Every codec's first call in the process is made by all threads at once behind a spin barrier (cold start; 24/200 extra processes), the sequential reference is computed after the threads; the threads' packed arrays and bitstreams lie back to back in one slab.",
         ref="DESIGN.md 4/C17", technique="TLA+ interleaving model (TLC) + per-thread TLC trace validation + ThreadSanitizer reports as trace events"),
     "C18": dict(
         text="AllocModel.tla explores object lifetimes with a fault at every allocation step of every call and checks "
@@ -152,7 +166,8 @@ CHECKS = {
              "for 26 codec entry points x 5 inputs and 23 bitmap scenarios; AllocTrace.tla accepts only: no crash, no "
              "leak, and either the documented failure indication with pre-existing objects unchanged or a fully correct "
              "result (codec output must decode to the input; the bitmap must equal the abstract set, which the spec "
-             "carries as state through the follow-up operations).",
+             "carries as state through the follow-up operations)."
+             " The adaptive entry points are additionally fault-injected on every threshold recipe of Selector.tla (a failed allocation replaces statistics by estimates) and the bitmap scenarios straddle every conversion threshold in both directions.",
         ref="DESIGN.md 4/C18", technique="TLA+ lifetime model (TLC) + exhaustive single-fault enumeration per call via allocator shim + stateful TLC trace validation"),
 }
 
